@@ -271,6 +271,10 @@ type pres =
 
 val words_init : words
 
+val start6 : n list -> n list option
+
+val finish : bool -> z -> z -> words -> pres
+
 val str_to_ipv6_gen : bool -> n list -> pres
 
 type ipres =
